@@ -52,10 +52,13 @@ def initPx : Rgba8 := ⟨0xEE, 0xEE, 0xEE, 0xEE⟩
 
 /-- read_image / read_view without conversion: `fmt` file into an image of type `dst` -/
 def readNative (fmt dst : String) (file : Bytes) (s : Settings) : Obs :=
+  -- bmprlef: the tree's RLE reader decodes whole rows and copies the region (proposed_fixes/C13-bmp-rle-subrectangle.diff)
+  let rleFixed := fmt = "bmprlef"
+  let fmt := if fmt = "bmprle" ∨ fmt = "bmprlef" then "bmp" else fmt
   match fmt, dst with
-  | "bmp", "rgb8" | "bmprle", "rgb8" => obsOfRes rgb8 (Res.map (mapImg dropAlpha) (bmpRead initPx file s (some 24)))
-  | "bmp", "rgba8" | "bmprle", "rgba8" => obsOfRes rgba8 (bmpRead initPx file s (some 32))
-  | "bmp", "gray8" | "bmprle", "gray8" =>
+  | "bmp", "rgb8" => obsOfRes rgb8 (Res.map (mapImg dropAlpha) (bmpRead initPx file s (some 24) rleFixed))
+  | "bmp", "rgba8" => obsOfRes rgba8 (bmpRead initPx file s (some 32) rleFixed)
+  | "bmp", "gray8" =>
       -- gray8 is "read supported" for bmp but is_allowed never accepts it (8 bits ≠ 24 / 32); a bad header fails first
       .err
   | "pnm", "gray8" => obsOfRes gray8 (pnmRead gray8 false false file s)
@@ -78,11 +81,11 @@ def readConv (fmt : String) (kd : Kind) (file : Bytes) (s : Settings) : Obs :=
     | .ok f => .ok (convertFlat src kd f)
     | o => o
   match fmt with
-  | "bmp" | "bmprle" =>
+  | "bmp" | "bmprle" | "bmprlef" =>
     match bmpReadHeader file with
     | none => .err
     | some (info, _) =>
-      match obsOfRes rgba8 (bmpRead initPx file s none) with
+      match obsOfRes rgba8 (bmpRead initPx file s none (fmt = "bmprlef")) with
       | .ok f => .ok ⟨f.w, f.h, (chunk 4 (f.w * f.h) f.px).flatMap (bmpConvPixel info.bpp kd)⟩
       | o => o
   | "pnm" =>
@@ -104,14 +107,14 @@ def settingsOf (tlx tly dx dy : Nat) : Settings := { tlx := tlx, tly := tly, dx 
 def anyTypeFixed (fmt : String) (file : Bytes) : Option String :=
   -- format checkers that follow is_allowed (proposed_fixes/C13-any-image-format-checkers.diff)
   match fmt with
-  | "bmp" | "bmprle" => (bmpReadHeader file).bind fun (info, _) => (bmpNativeBits info).map fun b => if b = 32 then "rgba8" else "rgb8"
+  | "bmp" | "bmprle" | "bmprlef" => (bmpReadHeader file).bind fun (info, _) => (bmpNativeBits info).map fun b => if b = 32 then "rgba8" else "rgb8"
   | "pnm" => (pnmReadHeader file).bind fun (info, _) =>
       if info.type = 1 ∨ info.type = 2 ∨ info.type = 5 then some "gray8" else if info.type = 3 ∨ info.type = 6 then some "rgb8" else none
   | _ => none
 
 def anyType (fmt : String) (file : Bytes) : Option String :=
   match fmt with
-  | "bmp" | "bmprle" => (bmpReadHeader file).map fun (info, _) => if info.bpp < 32 then "rgb8" else "rgba8"
+  | "bmp" | "bmprle" | "bmprlef" => (bmpReadHeader file).map fun (info, _) => if info.bpp < 32 then "rgb8" else "rgba8"
   | "targa" => (tgaReadHeader file).map fun info => if info.bpp < 32 then "rgb8" else "rgba8"
   | "pnm" => (pnmReadHeader file).bind fun (info, _) =>
       if info.type = 2 ∨ info.type = 5 then some "gray8" else if info.type = 3 ∨ info.type = 6 then some "rgb8" else none
@@ -120,7 +123,7 @@ def anyType (fmt : String) (file : Bytes) : Option String :=
 /-- scanline reader: all rows, decoded with the file's pixel layout into `dst` order; `none` = the reader refuses the variant -/
 def scanAll (fmt dst : String) (file : Bytes) : Obs :=
   match fmt with
-  | "bmp" | "bmprle" =>
+  | "bmp" | "bmprle" | "bmprlef" =>
     match bmpReadHeader file with
     | none => .err
     | some (info, _) =>
@@ -157,7 +160,7 @@ def scanAll (fmt dst : String) (file : Bytes) : Obs :=
 
 def infoOf (fmt : String) (file : Bytes) : String :=
   match fmt with
-  | "bmp" | "bmprle" => match bmpReadHeader file with
+  | "bmp" | "bmprle" | "bmprlef" => match bmpReadHeader file with
     | some (info, _) => s!"{info.width} {info.height} {info.bpp}"
     | none => "err:io"
   | "targa" => match tgaReadHeader file with
@@ -280,7 +283,7 @@ def judge (op obs : String) : String :=
           match img, inf with
           | .ok f, [w, h, d] =>
             if w.toNat? ≠ some f.w ∨ h.toNat? ≠ some f.h then fail "info-dimensions"
-            else if (fmt = "targa" ∨ ((fmt = "bmp" ∨ fmt = "bmprle") ∧ (d = "24" ∨ d = "32"))) ∧ d.toNat? ≠ some (8 * chanCount dst) then fail "info-depth"
+            else if (fmt = "targa" ∨ ((fmt = "bmp" ∨ fmt = "bmprle" ∨ fmt = "bmprlef") ∧ (d = "24" ∨ d = "32"))) ∧ d.toNat? ≠ some (8 * chanCount dst) then fail "info-depth"
             else "ok"
           | .ok _, _ => fail "info-missing"
           | _, _ => "ok"
